@@ -221,7 +221,11 @@ class Poly:
         for m, c in self.t.items():
             v = float(c)
             for s, e in m:
-                v *= env[s] ** e
+                x = env[s]
+                if e < 0 and x == 0:
+                    v = v * float("inf")  # division by zero: IEEE semantics (selected away by guards, or poisons the value)
+                else:
+                    v *= x ** e
             tot += v
         return tot
 
